@@ -330,6 +330,11 @@ impl NestedTrieDawg {
 
     /// Insert a single key into the trie structure
     fn insert_key(&mut self, key: &[u8]) -> Result<()> {
+        // Trie::insert on a DAWG that was never built: create the root first, otherwise the
+        // first new state would get id 0 and become its own child
+        if self.states.is_empty() {
+            self.root_state = self.add_state(0, false, false)?;
+        }
         let mut current_state = self.root_state;
 
         // Traverse/create path for the key
@@ -346,8 +351,11 @@ impl NestedTrieDawg {
 
         // Mark final state as terminal
         if (current_state as usize) < self.states.len() {
+            // count a key only when it was not a member already
+            if !self.states[current_state as usize].is_terminal() {
+                self.num_keys += 1;
+            }
             self.states[current_state as usize].set_terminal(true);
-            self.num_keys += 1;
         }
 
         Ok(())
